@@ -607,7 +607,7 @@ def r8_lx_option_follows_map(ctx):
     makes the LX of a later 835 group an envelope error).  Decided by constant propagation over map id x previous value
     on the statements after each load."""
     from ..absint import explore
-    drivers = (('x12n_document', 'x12n_document'),)
+    drivers = (('x12n_document', 'x12n_document'), ('x12context', 'X12ContextReader.iter_segments'))
     n = 0
     for mod, q in drivers:
         for fn in ctx.region(mod, q):
@@ -740,7 +740,7 @@ RULES = [
     Rule('C04.R2', 'top-of-stack reads/deletes/pops of emptiable lists hold NonEmpty (typestate on the CFG)', r2_stack_safety, floor=13),
     Rule('C04.R3', '_int is total over str|None; no bare int() on run-time values in x12file', r3_int_total, floor=1),
     Rule('C04.R7', 'header bookkeeping decided by constant propagation: push, control-number reuse, counters of the level below', r7_header_semantics, floor=1),
-    Rule('C04.R8', 'the reader option check_837_lx is switched with every map load, both ways (constant propagation)', r8_lx_option_follows_map, floor=2),
+    Rule('C04.R8', 'the reader option check_837_lx is switched with every map load, both ways (constant propagation)', r8_lx_option_follows_map, floor=4),
     Rule('C04.R6', 'trailer checks decided by constant propagation: stack shape x control number x declared count', r6_trailer_semantics, floor=2),
     Rule('C04.R5', 'shared with C01.R3/R5: no segment is damaged or lost at a buffer boundary', r5_shared_tokenizer, floor=6),
     Rule('C04.R4', 'pending reader errors are only removed by pop_errors, never per segment', r4_pending_errors_kept, floor=2),
